@@ -684,6 +684,9 @@ class type_enum(type_base):
             self.enum_i.enums,
             self._int_field_info.is_rand
         )
+        if self._init_val is not None:
+            # Apply the initial enumerator given to the constructor
+            self.set_val(self._init_val)
         return self._int_field_info.model        
         
     def get_val(self):
@@ -970,8 +973,7 @@ class list_t(object):
         elif self.is_scalar:
             # Working with a scalar
             f = model.add_field()
-            mask_v = int(v) & self.mask
-            f.set_val(mask_v)
+            f.set_val(self._elem_val(v))
         else:
             if not issubclass(type(v), type(self.t)):
                 raise Exception("Attempting to append illegal element to object array")
@@ -980,6 +982,14 @@ class list_t(object):
             # Propagate randomization information
             v.get_model().is_declared_rand = self.get_model().is_declared_rand
             
+    def _elem_val(self, v):
+        """Reduces a value to the element type (as type_base.set_val does)"""
+        v = int(v) & self.mask
+        if self.t.is_signed and (v & (1 << (self.t.width-1))) != 0:
+            # Re-interpret as two's complement
+            v -= (1 << self.t.width)
+        return v
+    
     def extend(self, v):
         for vi in v:
             self.append(vi)
@@ -1015,7 +1025,7 @@ class list_t(object):
         class list_scalar_it(object):
             def __init__(self, l):
                 self.l = l
-                self.model = l._int_field_info.model
+                self.model = l.get_model()
                 self.idx = 0
 
             def __iter__(self):
@@ -1041,7 +1051,7 @@ class list_t(object):
         class list_object_it(object):
             def __init__(self, l):
                 self.l = l
-                self.model = l._int_field_info.model
+                self.model = l.get_model()
                 self.idx = 0
                 
             def __next__(self):
@@ -1104,7 +1114,7 @@ class list_t(object):
             self.get_model().field_l[k].set_val(val)
         elif self.is_scalar:
             self.get_model().field_l[k].set_val(
-                ValueScalar(int(v) & (1 << self.t.width)-1))
+                ValueScalar(self._elem_val(v)))
         else:
             if not issubclass(type(v), type(self.t)):
                 raise Exception("Attempting to assign illegal element to object array")
